@@ -233,6 +233,21 @@ func runC20(seed uint64) {
 					counted = false
 				}
 			}
+			if !counted && supported[ptype] {
+				// membership at the instant the report was processed is not observable (the entry may have
+				// been dropped a moment later): if the node holds exactly the radius just reported in a
+				// supported payload type, the report was counted
+				if got, has := vp.p.VerifRadiusOf(cp.node.ID()); has {
+					want := make([]byte, 32)
+					be := rad.Bytes()
+					for i := range be {
+						want[i] = be[len(be)-1-i]
+					}
+					if bytes.Equal(got, want) {
+						counted = true
+					}
+				}
+			}
 			if counted {
 				cp.radius = rad
 				w.probe(fmt.Sprintf("report_via%d_type%d", via, ptype))
